@@ -69,7 +69,9 @@ pub fn gen(rng: &mut Rng, tier: &str) -> String {
     // wide minimizers (p = 8, 10; thorough also 12) with the default permutation only: the identity table has 4^p entries
     let wide = rng.chance(1, 15);
     let p = if wide { if tier == "thorough" { *rng.pick(&[8usize, 10, 10, 12]) } else { *rng.pick(&[8usize, 10]) } } else { *rng.pick(ps) };
-    let container = *rng.pick(&["bytes", "bytes", "string", "lmer1", "lmer2", "lmer3"]);
+    // now and then a window of 62..72 p-mers (k - p around 64), reads long enough to rescan (growable containers only)
+    let widewin = !wide && rng.chance(1, 20);
+    let container = if widewin { *rng.pick(&["bytes", "string"]) } else { *rng.pick(&["bytes", "bytes", "string", "lmer1", "lmer2", "lmer3"]) };
     let maxlen = match container {
         "lmer1" => 28,
         "lmer2" => 60,
@@ -77,7 +79,7 @@ pub fn gen(rng: &mut Rng, tier: &str) -> String {
         _ => 1 << 40,
     };
     // k > p, pieces (<= 2k-p) must fit; a small stream violates the capacity assertion on purpose
-    let mut k = p + 1 + rng.below(12);
+    let mut k = p + if widewin { *rng.pick(&[61usize, 62, 63, 64, 64, 65, 66, 71]) } else { 1 + rng.below(12) };
     if 2 * k - p > maxlen && !rng.chance(1, 30) {
         k = (maxlen + p) / 2;
     }
@@ -103,7 +105,7 @@ pub fn gen(rng: &mut Rng, tier: &str) -> String {
                 _ => src,
             }
         } else {
-            let len = if rng.chance(1, 25) { rng.below(k) } else { k + rng.below(50) };
+            let len = if widewin { k + rng.range(80, 300) } else if rng.chance(1, 25) { rng.below(k) } else { k + rng.below(50) };
             random_seq(rng, len, alpha)
         };
         reads.push(r);
